@@ -439,7 +439,7 @@ func (e *Engine) verifyFunctionCase(fn *ssa.Function, spec *FuncSpec, props []st
 	}
 	res.Blocks = len(fn.Blocks)
 	x := &FnExec{eng: e, q: newQ(spec.Mode), top: fn, topSpec: spec, mode: spec.Mode, ordinals: map[string]int{}, panics: spec.Panics, arithChk: spec.Arith,
-		ghost: map[string]string{}, props: props, trusted: map[string]bool{}, depthLimit: 6}
+		ghost: map[string]string{}, props: props, trusted: map[string]bool{}, depthLimit: 6, coverReturns: len(spec.Ensures) > 0 || spec.Panics}
 	defer func() {
 		if r := recover(); r != nil {
 			res.Errors = append(res.Errors, fmt.Sprintf("internal error in %s: %v", res.Key, r))
